@@ -170,7 +170,8 @@ func checkC05(c *Ctx) error {
 				mu.Unlock()
 				continue
 			}
-			d := verifhook.BuildLALR(hookSpec(cf))
+			var d *verifhook.ParserDump
+			c.Guard("lr1.ConstructLALR on the grammar in g.lox", map[string]string{"g.lox": loxOf(es.G)}, func() { d = verifhook.BuildLALR(hookSpec(cf)) })
 			c.Ev.Eval(1)
 			diff, _, mism := compareAutomata2(tbl, rr, cf, d, false)
 			lox, _ := es.G.Lox()
